@@ -370,8 +370,8 @@ def median_case(ctx, g, rng):
 
 
 def plan(ctx):
-    cases = [("cfg", i) for i in range(60 if ctx.thorough else 20)]
-    cases += [("median", i) for i in range(1000 if ctx.thorough else 200)]
+    cases = [("cfg", i) for i in range(250 if ctx.thorough else 20)]
+    cases += [("median", i) for i in range(3000 if ctx.thorough else 200)]
     return cases
 
 
